@@ -964,6 +964,9 @@ def check(program, rep):
     from . import C14
     from ..constfold import Folder as _Folder
     rep.guard("C14-R5", C14.r5_busy_states, program, _Folder(program), rep)
+    # ... and the one for the monitor core from wrapper() (C01-R2)
+    from . import C01
+    rep.guard("C01-R2", C01.r2_monitor_reservation, program, rep)
     # arguments handed to package functions under the wrong name / same-
     # named optional parameters not passed on (NAMELINK, DESIGN.md 9.13)
     from .. import namelink as _nl
